@@ -116,13 +116,14 @@ pub fn literal_spans(src: &str) -> Vec<(usize, usize)> {
 }
 
 /// the replacement alphabet; mutation 0 = delete, 1 = duplicate, 2.. = replace by ALPHABET[m - 2]
-pub const ALPHABET: [&str; 14] = ["{", "}", "x", "(", ")", ":", "@", "$", ".", "1", "\"s\"", "Query", "field", "!"];
+pub const ALPHABET: [&str; 14] = ["x", "@", "{", "}", "(", ")", ":", "$", ".", "1", "\"s\"", "Query", "field", "!"];
 
-pub fn mutations(level: usize) -> usize {
+/// the mutations of a level: 1 = delete; 2 = delete, replace by `x`, replace by `@`; 3 = all
+pub fn mutation_list(level: usize) -> Vec<usize> {
     match level {
-        0 | 1 => 1,
-        2 => 5,
-        _ => 2 + ALPHABET.len(),
+        0 | 1 => vec![0],
+        2 => vec![0, 2, 3],
+        _ => (0..2 + ALPHABET.len()).collect(),
     }
 }
 
